@@ -141,6 +141,12 @@ func main() {
 	}
 	e.tier = *tier
 	e.prop = *prop
+	lvPath := filepath.Join(*verifDir, "engine", "loopvars.json")
+	e.loopVars = map[string][]LoopVar{}
+	e.curVars = map[string][]LoopVar{}
+	if data, err := os.ReadFile(lvPath); err == nil {
+		json.Unmarshal(data, &e.loopVars)
+	}
 	e.verbose = *verbose
 	e.timeoutS = 10
 	if *tier == "thorough" {
@@ -314,6 +320,13 @@ func main() {
 		expected[*prop] = names
 		data, _ := json.MarshalIndent(expected, "", " ")
 		os.WriteFile(expPath, data, 0o644)
+		for k, v := range e.curVars {
+			if len(v) > 0 {
+				e.loopVars[k] = v
+			}
+		}
+		data, _ = json.MarshalIndent(e.loopVars, "", " ")
+		os.WriteFile(lvPath, data, 0o644)
 	} else if *only == "" {
 		// names are compared modulo call / instruction ordinals, so that adding or removing a call in a
 		// function does not rename its other obligations into "missing" ones
@@ -603,4 +616,8 @@ func runWitness(repo, verifDir string, k *KnownFinding) string {
 
 var ordRe = regexp.MustCompile(`(call|Call|IndexAddr|FieldAddr|Slice|TypeAssert|UnOp|BinOp|MakeSlice|Lookup|MapUpdate|Store|defer)\d+`)
 
-func normName(n string) string { return ordRe.ReplaceAllString(n, "$1*") }
+// normName: obligation names modulo instruction ordinals; a call and the same call deferred are the same site
+func normName(n string) string {
+	n = ordRe.ReplaceAllString(n, "$1*")
+	return strings.ReplaceAll(n, "@defer*", "@call*")
+}
